@@ -72,7 +72,7 @@ class Samples(object):
 
 
 def gen_part(chk, S):
-    plan = [(2, 2, 2), (3, 2, 2)] if chk.quick else [(2, 2, 3), (3, 2, 2), (3, 3, 2)]
+    plan = [(2, 2, 2), (3, 2, 2)] if chk.quick else [(2, 2, 2), (3, 2, 2), (2, 3, 2)]
     neg = False
     for kx, ky, nev in plan:
         cfg = 'SPECIFICATION Spec\nCONSTANTS KX = %d\nKY = %d\nNEv = %d\nINVARIANT NeverKeepsOutside\n' % (kx, ky, nev)
